@@ -4,6 +4,7 @@ import Rangers.Model.VrfSha512
 import Rangers.Model.VrfCurve
 import Rangers.Model.Vrf
 import Rangers.Model.Qn
+import Rangers.Model.VrfMsg
 import Rangers.Generated.C16Facts
 /- Line-protocol driver for property C16 (see design/C16.md for the op list). -/
 namespace Rangers.Drive.C16
@@ -42,6 +43,34 @@ def step (_ : Unit) (line : String) : Unit × String :=
     | ["sha512", m] => match ofHex? m with
       | some m => toHex (VrfSha512.sha512 m)
       | none => "bad-op"
+    | ["sha3", m] => match ofHex? m with
+      | some m => toHex (VrfMsg.sha3_256 m)
+      | none => "bad-op"
+    | ["cdelta", ns] => match ns.toInt? with
+      | some ns => match VrfMsg.calDelta ns with
+        | some d => toString d
+        | none => "unmodelled"
+      | none => "bad-op"
+    | ["vmsg", r, d] => match ofHex? r, d.toInt? with
+      | some r, some d => if d > 300 then "bad-op" else toHex (VrfMsg.genVrfMsg r d)
+      | _, _ => "bad-op"
+    | ["vbt", thr, pk, pv, rnd, ns, h, w, t, tq, ptq] =>
+      match thr.toNat?, hexs [pk, pv, rnd], ns.toInt?, h.toNat?, w.toNat?, t.toNat?, tq.toNat?, ptq.toNat? with
+      | some thr, some [pk, pv, rnd], some ns, some h, some w, some t, some tq, some ptq =>
+        if h < Qn.two64 ∧ w < Qn.two64 ∧ t < Qn.two64 ∧ tq < Qn.two64 ∧ ptq < Qn.two64 then
+          match VrfMsg.blockMsg rnd ns with
+          | none => "unmodelled"
+          | some msg =>
+            match Qn.verifyBlockVRF params thr pk (beToNat pv) msg h w t tq ptq with
+            | .verifyErr _ => "err-decode"
+            | .verifyFalse => "false"
+            | .notSatisfy => "not-satisfy"
+            | .qnError => "qn-error"
+            | .panic => "PANIC"
+            | .undefined => "unmodelled"
+            | .ok => "ok"
+        else "bad-op"
+      | _, _, _, _, _, _, _, _ => "bad-op"
     | ["pad", h] => match ofHex? h with
       | some b => toHex (Vrf.tryZeroPadding b) ++ " " ++ toHex (Vrf.tryZeroPadding b)
       | none => "bad-op"
